@@ -60,7 +60,7 @@ class Runner:
     def ref(self, sc, mode="seq"):
         k = (mode,) + sc.ref_key()
         if k not in self.refs:
-            rc, out, err = expcorr.run_one(self.c_exe, Scenario(mode, 0, sc.n, 64, sc.seed, 0, 0, sc.kinds))
+            rc, out, err = expcorr.run_one(self.c_exe, Scenario(mode, 1 if mode == "solo" else 0, sc.n, 64, sc.seed, 0, 0, sc.kinds))
             self.evals += 1
             self.refs[k] = (rc, expcorr.parse_output(out), err)
         return self.refs[k]
@@ -185,9 +185,9 @@ def run(chk):
             n_corpus += 1
             for sc, res in zip(grp, gres):
                 if not res["problems"] and multi and sc.kinds and sc.mode == "par":
-                    rc, ref, err = rn.ref(sc, "seq")
+                    rc, ref, err = rn.ref(sc, "solo")
                     if expcorr.digests(res["r"]) != expcorr.digests(ref):
-                        res["problems"].append("result digests differ from the sequential run of the same trials")
+                        res["problems"].append("result digests differ from the same trials each run alone as a one-trial experiment")
                 if res["problems"]:
                     if not file_bad:
                         report(chk, "corpus %s: %s" % (name, "; ".join(res["problems"][:3])),
@@ -255,9 +255,9 @@ def run(chk):
         for sc in grp:
             if sc.kinds:
                 keys.setdefault(sc.ref_key(), sc)
-    vlib.parallel_map(lambda sc: rn.ref(sc, "seq"), list(keys.values()), workers=max(2, vlib.NPROC // 2))
-    some = list(keys.values())[:: max(1, len(keys) // 12)]
-    vlib.parallel_map(lambda sc: (rn.ref(sc, "rev"), rn.ref(sc, "fresh")), some, workers=max(2, vlib.NPROC // 2))
+    vlib.parallel_map(lambda sc: rn.ref(sc, "solo"), list(keys.values()), workers=max(2, vlib.NPROC // 2))
+    some = list(keys.values())[:: max(1, len(keys) // 24)]
+    vlib.parallel_map(lambda sc: (rn.ref(sc, "seq"), rn.ref(sc, "rev"), rn.ref(sc, "fresh")), some, workers=max(2, vlib.NPROC // 2))
     # the runner itself: a few processes at a time, so that runs with many threads overlap and perturb each other
     gresults = vlib.parallel_map(work, groups, workers=4)
     rn.evals += len(gresults)
@@ -267,16 +267,18 @@ def run(chk):
         for j, (sc, res) in enumerate(zip(grp, gres)):
             probs = list(res["problems"])
             if not probs and sc.kinds:
-                rc, ref, err = rn.ref(sc, "seq")
+                rc, ref, err = rn.ref(sc, "solo")
                 d, dr = expcorr.digests(res["r"]), expcorr.digests(ref)
                 if rc != 0 or d != dr:
                     first = next((i for i in range(sc.n) if i >= len(d) or i >= len(dr) or d[i] != dr[i]), 0)
-                    probs.append("result digest of trial %d differs from the sequential single-thread run of the same trials "
-                                 "(%s vs %s)" % (first, d[first] if first < len(d) else "?", dr[first] if first < len(dr) else "?"))
-                for mode in ("rev", "fresh"):
+                    probs.append("outcome of trial %d (result digest incl. the next 64 bits of its random stream) differs from the same "
+                                 "trial run alone as a one-trial experiment on a fresh worker (%s vs %s)"
+                                 % (first, d[first] if first < len(d) else "?", dr[first] if first < len(dr) else "?"))
+                for mode in ("seq", "rev", "fresh"):
                     k = (mode,) + sc.ref_key()
                     if k in rn.refs and expcorr.digests(rn.refs[k][1]) != dr:
-                        probs.append("sequential order '%s' gives different digests than order 'seq'" % mode)
+                        probs.append("running the trials one after the other in one thread (order '%s') gives different outcomes than "
+                                     "running each alone" % mode)
             if probs:
                 bad.append((grp, sc, res, probs, True))
                 break
@@ -289,7 +291,7 @@ def run(chk):
                 stats.append(dict(expcorr.assignment_sig(res["r"]), n=sc.n, W=res["r"]["P"][0], size=sc.size, kinds=sc.kinds,
                                   pat=sc.pat, ordinal=j))
     for grp, sc, res, probs, found in bad:
-        lines = [expcorr.group_line(grp)] + ([sc.line("seq")] if sc.kinds and len(grp) == 1 else [])
+        lines = [expcorr.group_line(grp)] + ([Scenario("solo", 1, sc.n, sc.size, sc.seed, 0, 0, sc.kinds).line()] if sc.kinds else [])
         report(chk, "; ".join(probs[:3]), replay_text(lines, res), found)
     if bad:
         chk.cov["failing_runs"] = len(bad)
@@ -346,8 +348,10 @@ def run(chk):
         "trial contents: processes + resource, buffer, object queue, 16 samplers, gamma/geometric caches with alternating "
         "parameters, logger flags set per trial with the log digested, coin flips when the cache is reset by seeding. Checked per "
         "run: per-index call counters = 1, own element, calls finished at return = n, no call outside the array, guard bytes; the "
-        "S/E log replayed as a schedule of the Lean model and judged by Monitor.C19; digests bit-identical to the sequential run "
-        "(and reverse order / new thread per trial for a sample). non-trivial = at least two worker threads ran trials and some "
+        "S/E log replayed as a schedule of the Lean model and judged by Monitor.C19; every trial's outcome (digest incl. the next raw 64 "
+        "bits of its stream) bit-identical to the same trial run ALONE as a one-trial experiment in a forked process (and to the "
+        "sequential / reverse / new-thread-per-trial orders for a sample); every fourth experiment reuses seeds between trials (all "
+        "equal or period 3), half of those with trials that call cmb_random_terminate(). non-trivial = at least two worker threads ran trials and some "
         "thread ran at least two (there is an 'earlier trial on the same worker'); distinct by hash of the (index -> thread) "
         "assignment and the start order. This part is differential testing of real thread schedules.")
     chk.cov["input_distribution"] = {
